@@ -89,15 +89,42 @@ def expectedStructUses : List (String × List (String × String)) := [
   ("encode._string", [("param:encoder", "pack")]),
   ("base.BasicProperties.marshal", [(">H", "pack")])]
 
-def expectedFrameStructUses : List (String × List (String × String)) := [
+/-- the 7-byte frame header: written and peeked with the same format -/
+def expectedEnvelopeStructUses : List (String × List (String × String)) := [
   ("frame.frame_parts", [(">BHI", "unpack")]),
   ("frame._marshal", [(">BHI", "pack")]),
   ("frame._marshal_method_frame", [("Struct.integer", "pack")]),
+  ("frame.unmarshal", []),
+  ("frame._unmarshal_method_frame", []),
+  ("heartbeat.Heartbeat", [(">BHI", "pack")])]
+
+def expectedProtocolHeaderStructUses : List (String × List (String × String)) := [
   ("header.ProtocolHeader.marshal", [("BBBB", "pack")]),
   ("header.ProtocolHeader.unmarshal", [("BBB", "unpack")]),
+  ("frame._unmarshal_protocol_header_frame", [])]
+
+def expectedContentHeaderStructUses : List (String × List (String × String)) := [
   ("header.ContentHeader.marshal", [(">HxxQ", "pack")]),
   ("header.ContentHeader.unmarshal", [(">HHQ", "unpack")]),
-  ("heartbeat.Heartbeat", [(">BHI", "pack")])]
+  ("header.ContentHeader._get_flags", []),
+  ("frame._unmarshal_header_frame", [])]
+
+/-- the constants each function of frame.py reads: exactly these (a new constant in a framing
+decision is a change of the framing logic) -/
+def expectedFrameConstUses : List (String × String) := [
+  ("frame.unmarshal", "FRAME_HEARTBEAT"), ("frame.unmarshal", "FRAME_END"),
+  ("frame.unmarshal", "FRAME_HEADER_SIZE"), ("frame.unmarshal", "FRAME_METHOD"),
+  ("frame.unmarshal", "FRAME_HEADER"), ("frame.unmarshal", "FRAME_BODY"),
+  ("frame.frame_parts", "FRAME_HEADER_SIZE"), ("frame._marshal", "FRAME_END_CHAR"),
+  ("frame._marshal_content_body_frame", "FRAME_BODY"),
+  ("frame._marshal_content_header_frame", "FRAME_HEADER"),
+  ("frame._marshal_method_frame", "FRAME_METHOD"),
+  ("frame._unmarshal_protocol_header_frame", "AMQP")]
+
+/-- every text codec call: strict UTF-8, default error handling -/
+def expectedCodecCalls : List (String × String × String) := [
+  ("decode.long_str", "decode", "'utf-8'"), ("decode.short_str", "decode", "'utf-8'"),
+  ("decode.field_table", "decode", "'utf-8'"), ("encode._string", "encode", "'utf-8'")]
 
 def sitesOf (fn : String) : List (List String × List String × String) :=
   (Generated.exceptSites.filter (·.fn == fn)).map (fun s => (s.covers, s.catches, s.action))
